@@ -488,6 +488,12 @@ impl Recovery {
         let mut max: Option<RecordId> = None;
         let mut last: Option<RecordId> = None;
         loop {
+            // Whatever follows the last live record is the remainder of an interrupted append. It
+            // may be incomplete, zero-filled or garbage; it is cut off after the scan.
+            if self.live_segment_end.is_some() {
+                break;
+            }
+
             let header = match seg_reader.read_header()? {
                 None => {
                     break;
